@@ -12,12 +12,14 @@ import (
 	"log/slog"
 	"net/netip"
 	"os"
+	"reflect"
 	"runtime"
 	"strings"
 	"sync"
 	"sync/atomic"
 	"testing"
 	"time"
+	"unsafe"
 
 	"github.com/slackhq/nebula"
 	"github.com/slackhq/nebula/cert"
@@ -336,6 +338,39 @@ func (n *c49Node) dnsUp() bool {
 	return err == nil && k >= 12 && buf[0] == 0x12 && buf[1] == 0x34
 }
 
+// c49Sockets lists every UDP socket the node opened (Interface.writers: one per configured routine, also those the
+// platform's routine clamp leaves unused), reached through reflection because only the first one has an accessor.
+func c49Sockets(c *mc.Check, n *c49Node) []*udp.TesterConn {
+	f := reflect.ValueOf(n.c.GetF()).Elem().FieldByName("writers")
+	if !f.IsValid() || f.Kind() != reflect.Slice {
+		c.Broken("Interface.writers is not a slice any more: the harness cannot enumerate the node's sockets")
+	}
+	f = reflect.NewAt(f.Type(), unsafe.Pointer(f.UnsafeAddr())).Elem()
+	var out []*udp.TesterConn
+	for i := 0; i < f.Len(); i++ {
+		tc, ok := f.Index(i).Interface().(*udp.TesterConn)
+		if !ok {
+			c.Broken("Interface.writers[%d] is not a *udp.TesterConn in the e2e_testing build", i)
+		}
+		out = append(out, tc)
+	}
+	return out
+}
+
+// c49SocketClosed reports whether Close has run on the in-memory socket (its done channel is closed).
+func c49SocketClosed(c *mc.Check, tc *udp.TesterConn) bool {
+	d := reflect.ValueOf(tc).Elem().FieldByName("done")
+	if !d.IsValid() || d.Kind() != reflect.Chan {
+		c.Broken("udp.TesterConn.done is not a channel any more: the harness cannot observe socket closure")
+	}
+	d = reflect.NewAt(d.Type(), unsafe.Pointer(d.UnsafeAddr())).Elem()
+	_, ok := d.TryRecv()
+	// a closed channel yields (zero, false) immediately; an open empty one also yields (zero, false): tell them apart by select
+	_ = ok
+	chosen, _, recvOK := reflect.Select([]reflect.SelectCase{{Dir: reflect.SelectRecv, Chan: d}, {Dir: reflect.SelectDefault}})
+	return chosen == 0 && !recvOK
+}
+
 func c49FreeUDPPort() int {
 	pc, err := net.ListenPacket("udp", "127.0.0.1:0")
 	if err != nil {
@@ -409,6 +444,11 @@ func c49Scenarios() []c49Scenario {
 	}
 	return []c49Scenario{
 		{name: "single-node", build: func(w *c49World) { w.add("a", "10.128.0.1/24", nil) }, steps: []c49Step{startAll}, logPoints: true},
+		{name: "three-routines-on-a-single-queue-platform", build: func(w *c49World) {
+			// routines: 3 opens three sockets; the in-memory conn and the single-queue tun serve one reader, so Start clamps the
+			// routine count — Stop still has to close all three sockets
+			w.add("a", "10.128.0.1/24", m{"routines": 3})
+		}, steps: []c49Step{startAll}},
 		{name: "lighthouse-serving-dns", build: func(w *c49World) {
 			// a lighthouse that answers DNS on a real loopback socket: Control.Start spawns the responder asynchronously
 			port := c49FreeUDPPort()
@@ -573,12 +613,12 @@ func TestVerifC49(t *testing.T) {
 	defer c.End()
 	nb, na := time.Now().Add(-time.Hour), time.Now().Add(24*time.Hour)
 	ca, _, caKey, _ := cert_test.NewTestCaCert(cert.Version2, cert.Curve_CURVE25519, nb, na, nil, nil, []string{})
-	var points, nontrivial, maxGoroutines, logPoints, logPointsFired int64
+	var points, nontrivial, maxGoroutines, logPoints, logPointsFired, socketsSeen int64
 	outcomes := map[string]int64{}
 	firedAt := map[string]int64{}
 	scenarios := c49Scenarios()
 	if !c.Thorough() {
-		scenarios = scenarios[:5]
+		scenarios = scenarios[:6]
 	}
 
 	// runPoint executes one crash point. Step mode (logIdx == 0): the scenario's first k steps, then Stop on node ni.
@@ -600,8 +640,11 @@ func TestVerifC49(t *testing.T) {
 		stopOK := make(chan bool, 1)
 		noTrigger := make(chan struct{})
 		var built []int64 // records logged while nebula.Main assembled the node: there is nothing to stop yet
+		socks := map[*c49Node][]*udp.TesterConn{}
 		for _, n := range w.nodes {
 			built = append(built, n.hook.count.Load())
+			socks[n] = c49Sockets(c, n)
+			socketsSeen += int64(len(socks[n]))
 		}
 		if logIdx > 0 {
 			victim.hook.arm.Store(built[ni] + logIdx)
@@ -748,6 +791,14 @@ func TestVerifC49(t *testing.T) {
 			detail["goroutines"] = msg
 			c.Violation(fmt.Sprintf("C49 %s: goroutine left running after every node was stopped (first stopped: %s %s): %s", sc.name, victim.name, where, top), detail)
 		}
+		// every UDP socket of every node is closed (also the ones a routine clamp left without a reader)
+		for _, n := range w.nodes {
+			for i, tc := range socks[n] {
+				if !c49SocketClosed(c, tc) {
+					c.Violation(fmt.Sprintf("C49 %s: udp socket %d of %d of node %s is still open after every node was stopped (first stopped: %s %s)", sc.name, i+1, len(socks[n]), n.name, victim.name, where), detail)
+				}
+			}
+		}
 		// real sockets the node opened (DNS responder) must be free again
 		for _, n := range w.nodes {
 			if n.dnsPort != 0 {
@@ -820,6 +871,7 @@ func TestVerifC49(t *testing.T) {
 	c.Set("distinct_nontrivial", nontrivial)
 	c.Set("rule", "one evaluation = one crash point: (scenario, number of steps executed, node stopped first) or (scenario, node, index of the log record during which Stop is injected); non-trivial = the nodes were started (goroutines, sockets and devices live) when Stop was injected")
 	c.Set("crash_points_by_phase", outcomes)
+	c.Set("udp_sockets_checked_for_closure", socketsSeen)
 	c.Set("log_record_crash_points_attempted", logPoints)
 	c.Set("log_record_crash_points_injected", logPointsFired)
 	c.Set("log_records_that_became_crash_points", firedAt)
